@@ -484,8 +484,9 @@ class LessParser(object):
 
     def p_property_decl_arguments(self, p):
         """ property_decl           : prop_open less_arguments t_semicolon
+                                    | prop_open less_arguments t_ws t_semicolon
         """
-        p[0] = Property([p[1], [p[2]]], p.lineno(3))
+        p[0] = Property([p[1], [p[2]]], p.lineno(len(p) - 1))
 
     def p_prop_open_ie_hack(self, p):
         """ prop_open               : '*' prop_open
